@@ -59,6 +59,24 @@ finally:
 if not a.from_seeded and os.path.isdir(demo_dir):
     sh("find %s -type d -name target -prune -exec rm -rf {} +" % demo_dir)
 # --- our checks against the mutant, in /repo
+if a.no_checks and not os.path.exists(os.path.join(dst, "meta.json")):
+    # first contact, confirmation only (runs in the agent's worktree, does not need /repo): keep patch, demo and meta; our
+    # checks are run later with --from-seeded
+    os.makedirs(dst, exist_ok=True)
+    shutil.copy(patch, os.path.join(dst, "patch.diff"))
+    if os.path.isdir(demo_dir):
+        shutil.rmtree(os.path.join(dst, "demo"), ignore_errors=True)
+        shutil.copytree(demo_dir, os.path.join(dst, "demo"), ignore=shutil.ignore_patterns("target", "Cargo.lock", "home"))
+    meta = {}
+    try:
+        meta = json.load(open(os.path.join(src, "meta.json")))
+    except Exception:
+        pass
+    meta.update(res)
+    meta["property"] = a.prop
+    json.dump(meta, open(os.path.join(dst, "meta.json"), "w"), indent=1)
+    print(json.dumps(res, indent=1)[:3000])
+    sys.exit(0)
 if a.no_checks:
     prev = json.load(open(os.path.join(dst, "meta.json")))
     prev["confirmed_by_lead"] = res["confirmed_by_lead"]
